@@ -51,7 +51,7 @@ pub fn run(ctx: &Ctx) -> (Report, Meta) {
     .floor("doubling_scripts_checked", 150)
     .floor("post_modification_evaluations_checked", 400);
 
-    let n = ctx.size(4_000, 400_000);
+    let n = ctx.size(16_000, 2_000_000);
     let g = GenOpts { allow_max_step: true, bidirectional_problems: true, max_span: 12.0, ..Default::default() };
     let rep = par_for(n, "C19", |i, rep| {
         let case_id = format!("case/{}", i);
@@ -254,10 +254,16 @@ pub fn run(ctx: &Ctx) -> (Report, Meta) {
                         let last = tr.cbs.last().unwrap();
                         let ex = c.exact(last.x).unwrap();
                         for j in 0..ex.len() {
-                            let tolj = scn.atol.at(j) + scn.rtol.at(j) * ex[j].abs();
+                            // one tolerance scale per component for the whole run: the error present at the end was
+                            // committed where |y_j| was large, the final value may sit at a zero crossing
+                            let ymax = tr.cbs.iter().fold(0.0f64, |mx, cb| mx.max(c.exact(cb.x).unwrap()[j].abs()));
+                            let tolj = scn.atol.at(j) + scn.rtol.at(j) * ymax;
                             let ratio = (last.y[j] - ex[j]).abs() / (amp * (tr.cbs.len() as f64) * tolj);
                             rep.worst("bdf_noop_err_over_naccpt_tol", ratio);
-                            if ratio > k_tol {
+                            // the run without the no-op is the yardstick where the problem itself is hard for BDF
+                            // (how accurate BDF is in absolute terms is C01's subject)
+                            let ratio_plain = plain.cbs.last().map(|pl| (pl.y[j] - c.exact(pl.x).unwrap()[j]).abs() / (amp * (plain.cbs.len() as f64) * tolj)).unwrap_or(0.0);
+                            if ratio > k_tol && !(ratio <= 10.0 * ratio_plain) {
                                 rep.violate(&sig("unchanged_state_within_tolerance", cls), format!("BDF after a no-op ModifiedSolution: final error {:e} is {:.0} x naccpt x tol", (last.y[j] - ex[j]).abs(), ratio), &case_id, c2.clone());
                                 break;
                             }
@@ -315,7 +321,8 @@ pub fn run(ctx: &Ctx) -> (Report, Meta) {
                     let last = tr.cbs.last().unwrap();
                     let ex = c.exact(last.x).unwrap();
                     for j in 0..ex.len() {
-                        let tolj = s2.rtol.at(j) * (2.0 * ex[j]).abs();
+                        let ymax = tr.cbs.iter().fold(0.0f64, |mx, cb| mx.max(c.exact(cb.x).unwrap()[j].abs()));
+                        let tolj = s2.rtol.at(j) * 2.0 * ymax;
                         let ratio = (last.y[j] - 2.0 * ex[j]).abs() / ((tr.cbs.len() as f64) * tolj);
                         rep.worst(&format!("implicit_doubling_err_over_naccpt_tol_{}", m), ratio);
                         if ratio > k_tol {
